@@ -47,8 +47,9 @@ Theorem plain_exact_positions : forall lines n minCol,
   new_position_range lines n minCol =
   Ok [mkp (sn_line n) (sn_col n) (sn_col n + slen (sn_value n) - 1)].
 Proof.
-  intros lines n minCol [Hv [[l [pre [post [Hl [El Ec]]]]] Hp]].
+  intros lines n minCol [Hv [Hnn [Hblk [Hanc [[l [pre [post [Hl [El [Hasc Ec]]]]]] Hp]]]]].
   unfold new_position_range. destruct (sn_value n) as [|need rest] eqn:Ev; [contradiction|].
+  unfold npr_entry. rewrite Hblk.
   unfold line_at in Hl. destruct (1 <=? sn_line n) eqn:E1; [|discriminate]. apply Z.leb_le in E1.
   replace (sn_line n <=? 0) with false by (symmetry; apply Z.leb_gt; lia).
   assert (Hsk : exists more, skipn (Z.to_nat (sn_line n - 1)) lines = l :: more).
@@ -56,7 +57,14 @@ Proof.
     induction k as [|k IH]; intros lines H.
     - destruct lines as [|x r]; [discriminate|]. cbn in H. inversion H; subst. exists r. reflexivity.
     - destruct lines as [|x r]; [discriminate|]. cbn in H. cbn [skipn]. apply IH. exact H. }
-  destruct Hsk as [more Hsk]. rewrite Hsk. cbn [npr_loop token_of] in *.
+  destruct Hsk as [more Hsk]. rewrite Hsk. cbv zeta.
+  assert (Hlen : slen l =? 0 = false).
+  { apply Z.eqb_neq. subst l. cbn [token_of]. rewrite !slen_app, slen_String.
+    pose proof (slen_nonneg pre). pose proof (slen_nonneg post). pose proof (slen_nonneg rest). lia. }
+  rewrite Hlen.
+  assert (Hfc : first_col l n = sn_col n).
+  { unfold first_col. rewrite Hanc. rewrite Ec. subst l. apply byte_column_ascii. exact Hasc. }
+  rewrite Hfc. cbn [npr_loop token_of] in *.
   specialize (Hp eq_refl).
   (* the adjustment only looks at the value, not at what follows it *)
   assert (Hadj : adjust_col l (sn_col n) need rest = Some (sn_col n)).
@@ -73,9 +81,6 @@ Proof.
     replace (count_leading_space (String need rest) <? 0) with false by (symmetry; apply Z.ltb_ge; lia).
     reflexivity. }
   unfold line_step.
-  assert (Hlen : slen l =? 0 = false).
-  { apply Z.eqb_neq. subst l. rewrite !slen_app, slen_String.
-    pose proof (slen_nonneg pre). pose proof (slen_nonneg post). pose proof (slen_nonneg rest). lia. }
   rewrite Hlen, Hadj.
   assert (Hdrop : sdrop (Z.to_nat (sn_col n - 1)) l = (String need rest ++ post)%string).
   { subst l. rewrite Ec. replace (Z.to_nat (slen pre + 1 - 1)) with (String.length pre) by (unfold slen; lia).
@@ -145,7 +150,7 @@ Theorem plain_end_to_end : forall lines n minCol a b len,
 Proof.
   intros lines n minCol a b len HL Ha Hab Hb Hlen.
   assert (Hc : 1 <= sn_col n).
-  { destruct HL as [_ [[l [pre [post [_ [_ Ec]]]]] _]]. pose proof (slen_nonneg pre). lia. }
+  { destruct HL as [_ [_ [_ [_ [[l [pre [post [_ [_ [_ Ec]]]]]] _]]]]]. pose proof (slen_nonneg pre). lia. }
   eexists. split; [apply plain_exact_positions; exact HL|].
   assert (Hd : diag_positions a b [mkp (sn_line n) (sn_col n) (sn_col n + slen (sn_value n) - 1)] =
                [mkp (sn_line n) (sn_col n + a - 1) (sn_col n + b - 1)]).
